@@ -193,3 +193,57 @@ def cm_replayer(world, name, with_src, body_src, tr, h0, info, flag):
         return {"call": f"client code on a real GCodeCore (body raises: {raises}):\n{body_src}", "observed": [out[0], None if out[0] == "return" else f"{out[1]}: {out[2]}"],
                 "before": jsonable(before), "after": jsonable(after), "reproduced": bool(bad), "detail": "; ".join(bad) or "the real run restores the entry state on this input"}
     return rp
+
+
+# ---------------------------------------------------------------------------------------------- C10 / C11 / C12: tracer shapes
+def tracer_replayer(world, method, g, h0, args):
+    """args: the symbolic arguments of PathTracer.<method> in call order.  The model's start position, distance mode, direction and arguments are
+    turned into ONE concrete shape; the real builder traces it (in both distance modes, output read back by the independent interpreter of
+    specs/bounded.py) and the native shape oracle of the bounded stand-in decides whether the real code breaks C10/C11/C12 on this input."""
+    def rp(model, obl, cover):
+        if cover: return None
+        import math
+        from specs import bounded, harness
+        def xyz(p, default=0.0):
+            if p is None: return None
+            it = list(p) if not hasattr(p, "x") else [p.x, p.y, p.z]
+            it = (it + [None, None, None])[:3]
+            return [default if c is None else float(c) for c in it]
+        o = h0[g.oid]
+        cur = xyz(harness.conc(world, model, o["_current_axes"], h0))
+        rel = str(harness.conc(world, model, o["_distance_mode"], h0)).lower().endswith("relative")
+        dirn = harness.conc(world, model, h0[o["_state"].oid]["_current_direction"], h0)
+        a = [harness.conc(world, model, v, h0) for v in args]
+        if any(not math.isfinite(c) or abs(c) > 1e6 for c in cur): return {"reproduced": None, "detail": "the model's coordinates are too large to trace natively"}
+        def absolute(p):
+            raw = list(p) if not hasattr(p, "x") else [p.x, p.y, p.z]
+            raw = (raw + [None, None, None])[:3]
+            return tuple((cur[i] + (0.0 if raw[i] is None else float(raw[i]))) if rel else (cur[i] if raw[i] is None else float(raw[i])) for i in range(3))
+        sh = {"kind": method, "dir": "cw" if "counter" not in str(dirn).lower() else "ccw"}
+        try:
+            if method == "arc":
+                c = xyz(a[1]); sh.update(target=absolute(a[0]), center=(c[0], c[1]), c=(cur[0] + c[0], cur[1] + c[1]), r=math.hypot(c[0], c[1]))
+            elif method == "circle":
+                c = xyz(a[0]); sh.update(center=(c[0], c[1]), c=(cur[0] + c[0], cur[1] + c[1]), r=math.hypot(c[0], c[1]))
+            elif method == "helix":
+                c = xyz(a[1]); sh.update(target=absolute(a[0]), center=(c[0], c[1]), turns=int(a[2]), c=(cur[0] + c[0], cur[1] + c[1]))
+            elif method == "spiral": sh.update(target=absolute(a[0]), turns=int(a[1]))
+            elif method == "thread": sh.update(target=absolute(a[0]), pitch=float(a[1]))
+            elif method == "arc_radius": sh.update(target=absolute(a[0]), radius=float(a[1]))
+            else: return None
+        except Exception as e:
+            return {"reproduced": None, "detail": f"the model's arguments do not make a shape: {e}"}
+        extent = max(1.0, max(abs(v) for v in list(sh.get("target", cur)) + cur) , sh.get("r", 1.0))
+        if extent > 1e5: return {"reproduced": None, "detail": "the model's coordinates are too large to trace natively"}
+        res = max(0.05, extent / 400.0)                       # a resolution that keeps the native run small; C10/C11 do not depend on it
+        bad = bounded._shape_oracle(tuple(cur), sh, res)
+        if bad and str(bad[0].get("why", "")).startswith("raised"):
+            # degenerate shapes (zero radius, zero length ...) are rejected by the real code with an exception: whether that is allowed is decided by the
+            # raises-clauses of the unit, not by this geometric oracle
+            return {"call": f"trace.{method} at {tuple(cur)} with {sh}", "observed": bad[0]["why"], "reproduced": None, "detail": "the real run raised: not judged by the native shape oracle"}
+        info = {"call": f"GCodeBuilder at {tuple(cur)}, direction {sh['dir']}, resolution {res:g}: trace.{method} with {dict((k, v) for k, v in sh.items() if k not in ('kind', 'dir', 'c', 'r'))} "
+                        f"(absolute target; traced in absolute AND relative mode)",
+                "observed": jsonable(bad[0]) if bad else "ends on the target, vertices on the curve, same vertices in both modes",
+                "reproduced": bool(bad), "detail": (bad[0].get("why", "") if bad else "the real run satisfies the native shape oracle on the model's input")}
+        return info
+    return rp
